@@ -586,7 +586,50 @@ def rule_distinct_counters(ctx):
     ctx.extra["repeat_sites"] = n
 
 
+def rule_pool_size(ctx):
+    """R1: dispatch reduces the hash modulo `num_workers` and indexes the sender table with it: the table built by WorkerPool::new has
+    exactly that many entries - the spawn loop runs over 0..n for the very n that is stored as `num_workers` (no clamp, no other bound on
+    one of the two)"""
+    P = ctx.program
+    n = 0
+    for crate, fam in CRATES.items():
+        bs = [x for x in P.bodies.values() if x.crate == crate and x.path.endswith("parallel::WorkerPool::new")]
+        if len(bs) != 1:
+            ctx.cannot("R1", fam + ":pool-size", "%d WorkerPool::new bodies" % len(bs))
+            continue
+        b = bs[0]
+        S = T.Slicer(b, P)
+        ags = Q.aggregates(b, "WorkerPool")
+        if len(ags) != 1:
+            ctx.cannot("R1", fam + ":pool-size", "WorkerPool construction not found", ctx.loc(b))
+            continue
+        i, j, s_ = ags[0]
+        f = dict(zip(s_["r"]["fields"], s_["r"]["ops"]))
+        stored = T.strip(S.operand(f["num_workers"], i, j))
+
+        def core(t):
+            t = T.strip(t)
+            while (t[0] == "call" and t[1].rsplit("::", 1)[-1] in ("get",) and "NonZero" in t[1] and t[2]) or t[0] == "cast":
+                t = T.strip(t[2][0] if t[0] == "call" else t[2])
+            return t
+        ends = []
+        for bi, bj, st in b.iter_stmts():
+            r = st.get("r") or {}
+            if r.get("k") == "agg" and (r.get("path") or "").endswith("ops::Range") and len(r["ops"]) == 2:
+                t = S.rvalue(r, bi, bj)
+                if T.fold_int(t[4][0]) == 0:
+                    ends.append((bi, t[4][1]))
+        pushes = [blk for blk, t in Q.calls(b, "Vec::<T, A>::push")]
+        n += 1
+        ok = bool(ends) and all(core(e) == core(stored) for _, e in ends) and bool(pushes)
+        ctx.check(ok, "R1", fam + ":pool-size", "senders are created for 0..num_workers, the value stored in the pool",
+                  "WorkerPool::new creates workers for 0..%s but stores num_workers = %s: dispatch reduces modulo the stored value and indexes a sender that does "
+                  "not exist (a panic in dispatch, or packets of some connections never accounted for)" % ([T.pp(e)[:40] for _, e in ends], T.pp(stored)[:40]), ctx.loc(b))
+    ctx.floor("R1", "WorkerPool::new bodies with a sized sender table", n, 3)
+
+
 def run(ctx):
+    rule_pool_size(ctx)
     rule_distinct_counters(ctx)
     rule_once(ctx)
     rule_R6(ctx)
